@@ -662,7 +662,8 @@ func (in *Interp) sliceOp(fr *frame, instr *ssa.Slice) Value {
 	switch x := x.(type) {
 	case Str:
 		if x.Opaque {
-			panic(engineAbort{"slice of opaque string"})
+			in.cuts["substring of an unmodelled (opaque) string taken without bounds check"] = true
+			return opaqueStr()
 		}
 		n := x.Len()
 		checkSym(n, n)
